@@ -56,6 +56,36 @@ def one_run(o, roots, troot, home, extra_env=None, stdin_roots=False, taskset=No
     return run_watchdog(argv, env, troot, stdin), argv
 
 
+def route_dependent(troot, roots):
+    """Files whose selection under --follow-links depends on which route reaches a shared directory first (known
+    finding: fclones shares one visited-set between concurrently walked roots while the ignore rules that apply to
+    a directory's contents are those collected along the route): the don't-care set of the reference walk."""
+    from .. import scanref
+    roots_abs = [fse(os.path.join(troot, rt)) for rt in roots]
+    must, dc = scanref.reference_scan(roots_abs, scanref.Opts(follow_links=True, cwd=fse(troot)))
+    return dc
+
+
+def explained_by_route(rep_a, rep_b, dc):
+    """True iff two reports differ only in route-dependent files and in what follows from their presence: per
+    content class the other members agree, or the class is absent from one report and has a route-dependent member."""
+    def classes(rep):
+        return {(g[0], g[1]): set(g[2]) for g in reports.body(rep)}
+    a, b = classes(rep_a), classes(rep_b)
+    differs = False
+    for key in set(a) | set(b):
+        ma, mb = a.get(key), b.get(key)
+        if ma == mb:
+            continue
+        differs = True
+        union = (ma or set()) | (mb or set())
+        if not (union & dc):
+            return False
+        if ma is not None and mb is not None and (ma - dc) != (mb - dc):
+            return False
+    return differs
+
+
 def run_case(arg):
     seed, i, tier = arg
     r = common.rng_for(seed, "C13", i)
@@ -75,6 +105,10 @@ def run_case(arg):
             for k in range(r.randrange(1, 4)):
                 dd_ = r.choice(dirs_)
                 inside = [e for e in fl if e["p"].rsplit("/", 1)[0] == dd_]
+                if not inside:
+                    continue
+                # the ignore file names the victim literally: keep to names without gitignore syntax in them
+                inside = [e for e in inside if re.fullmatch(r"[A-Za-z0-9_.]+", e["p"].rsplit("/", 1)[1])]
                 if not inside:
                     continue
                 victim = r.choice(inside)
@@ -138,6 +172,17 @@ def run_case(arg):
                 pass
             return (rep, w), None
 
+        def route_finding(rep, w, label):
+            if not links_mode:
+                return None
+            dc = route_dependent(troot, roots)
+            if not explained_by_route(rep0, rep, dc):
+                return None
+            w["route_dependent_files"] = sorted(fsd(p) for p in dc)[:10]
+            return violation("C13:follow-links:selection-depends-on-route", "with --follow-links the set of files differs between "
+                             "the base run and setting %s, in files reachable by several routes under different ignore rules"
+                             % label, w, sig=(i, label))
+
         res, bad = run(base, "base")
         if bad:
             return [bad]
@@ -167,6 +212,9 @@ def run_case(arg):
                 w["this_report"] = [[g[0], g[1], [fsd(p) for p in g[2]]] for g in reports.body(rep)][:10]
                 kind = label.split("=")[0]
                 what = "partition" if rep.partition() != part0 else "order"
+                kf = route_finding(rep, w, label)
+                if kf:
+                    return [kf]
                 return [violation("C13:body-differs:%s:%s" % (kind, what), "the report body differs between the base run and setting %s (%s)"
                                   % (label, what), w, sig=(i, label))]
             out.append(ok((i, label) if nont else None, None, {"runs": 1}))
@@ -184,6 +232,9 @@ def run_case(arg):
                 return [bad]
             rep, w = res
             if rep.partition() != part0:
+                kf = route_finding(rep, w, label)
+                if kf:
+                    return [kf]
                 w["diff"] = gm.describe_partition_diff(part0, rep.partition())
                 return [violation("C13:partition-differs:%s" % label.split("=")[0], "the partition differs between the base run and %s" % label,
                                   w, sig=(i, label))]
@@ -195,6 +246,9 @@ def run_case(arg):
                 return [bad]
             rep, w = res
             if reports.body(rep) != body0:
+                kf = route_finding(rep, w, label)
+                if kf:
+                    return [kf]
                 return [violation("C13:body-differs:cache", "the report body differs with --cache (%s)" % label, w, sig=(i, label))]
             out.append(ok((i, label) if nont else None, None, {"runs": 1}))
         out.append(ok(None, {"tree_files": sum(1 for e in spec["entries"] if e["t"] in "fh"), "groups": len(rep0.groups),
